@@ -3,17 +3,17 @@ CONSTANTS
   Nil = Nil
   Self = "g1"
   RetryBudget = 2
-  SettleT = 1
-  RetryT = 3
-  DoneT = 7
-  MaxUpd = 1
-  MaxBad = 0
-  MaxLocal = 1
+  SettleT = 30
+  RetryT = 300
+  DoneT = 3600
+  MaxUpd = 2
+  MaxBad = 2
+  MaxLocal = 2
   MaxInbound = 1
   MaxTime = 660
-  UseFourth = FALSE
-  SetIdxs = {0}
-  TimeSteps = {1, 2, 3, 7}
+  UseFourth = TRUE
+  SetIdxs = {0, 1, 2, 3}
+  TimeSteps = {}
 VIEW View
 INVARIANTS
   TypeOK
